@@ -11,7 +11,8 @@ REPO = os.environ.get("LENA_REPO", "/repo")
 
 class LoopSpec(object):
     def __init__(self, invariant=(), decreases=None, havoc=None, keep=None, ghost=None, init_ghost=None, body_ghost=None,
-                 cursor=None, body_end=()):
+                 cursor=None, body_end=(), exit_ghost=None):
+        self.exit_ghost = dict(exit_ghost or {})     # ghost name -> spec expression, evaluated when a for loop is exhausted
         # body_end: clauses PROVED at the end of every iteration (next / continue), over the locals of that iteration and
         # the body_ghost snapshots taken at its start; they are obligations only (never assumed at the loop head)
         self.body_end = list(body_end)
@@ -264,7 +265,10 @@ class ModuleCtx(object):
                 for sub in ast.iter_child_nodes(n):
                     if isinstance(sub, list):
                         continue
-                self._scan([x for x in ast.walk(n) if isinstance(x, (ast.Import, ast.ImportFrom))])
+                # (`from future_builtins import zip`: a python-2-only module -- under python 3 the import fails and the
+                # `except ImportError: pass` leaves the builtin in place)
+                self._scan([x for x in ast.walk(n) if isinstance(x, (ast.Import, ast.ImportFrom))
+                            and not (isinstance(x, ast.ImportFrom) and x.module == "future_builtins")])
 
     def resolve(self, name, interp):
         ent = self.names.get(name)
@@ -337,7 +341,12 @@ class World(object):
             return Fun("exc", name=attr)
         sub = self.module_file(modname + "." + attr)
         if sub is not None:
-            return Module(modname + "." + attr)
+            # a package whose __init__ does `from .attr import attr` re-binds the name: the imported object shadows the
+            # sub-module of the same name (lena.structures.histogram is the class, not the module)
+            f0 = self.module_file(modname)
+            ent0 = self.modctx(f0).names.get(attr) if f0 is not None and f0.endswith("__init__.py") else None
+            if not (ent0 is not None and ent0[0] == "from" and ent0[1] == modname + "." + attr and ent0[2] == attr):
+                return Module(modname + "." + attr)
         f = self.module_file(modname)
         if f is not None:
             mc = self.modctx(f)
